@@ -1,1 +1,120 @@
 // harness bodies for h2 src/proto/go_away.rs (compiled in-crate as `verif_h`, feature "verif")
+use super::*;
+
+fn any_id() -> StreamId {
+    let v: u32 = kani::any();
+    kani::assume(v <= 0x7fff_ffff);
+    StreamId::from(v)
+}
+
+/// C15.mono: for any <= 3 GOAWAY requests whose last-stream-ids respect the caller
+/// contract (non-increasing: `Recv::last_processed_id` is frozen once `Recv::go_away`
+/// ran, see C15.lpid), the recorded / pending last-stream-id never increases, the
+/// `assert!` in `go_away` is unreachable, an identical (id, reason) is not queued twice
+/// by `go_away_now`, and the close predicates follow their truth table.
+pub fn c15_mono_go_away_sequence() {
+    let mut g = GoAway::new();
+    assert!(!g.is_going_away() && !g.should_close_now() && !g.should_close_on_idle());
+    let mut last: Option<(StreamId, Reason)> = None;
+    let mut close_now = false;
+    let mut user = false;
+    let mut i = 0;
+    while i < 3 {
+        let id = any_id();
+        let reason: u32 = kani::any();
+        if let Some((prev, _)) = last {
+            kani::assume(id <= prev);
+        }
+        let f = frame::GoAway::new(id, reason.into());
+        let kind: u8 = kani::any();
+        kani::assume(kind < 3);
+        // between two requests the pending frame may or may not have been written
+        let sent: bool = kani::any();
+        if sent {
+            g.pending = None;
+        }
+        let had_pending = g.pending.is_some();
+        if kind == 0 {
+            g.go_away(f);
+        } else if kind == 1 {
+            g.go_away_now(f);
+            close_now = true;
+        } else {
+            g.go_away_from_user(f);
+            close_now = true;
+            user = true;
+        }
+        let duplicate = kind != 0 && last == Some((id, reason.into()));
+        match g.going_away() {
+            Some(ga) => {
+                assert!(ga.last_processed_id == id, "recorded last-stream-id is not the latest request");
+                if let Some((prev, _)) = last {
+                    assert!(ga.last_processed_id <= prev, "C15: last-stream-id increased");
+                }
+            }
+            None => panic!("not going away after a GOAWAY request"),
+        }
+        if duplicate {
+            assert!(g.pending.is_some() == had_pending, "identical GOAWAY queued again");
+        } else {
+            match &g.pending {
+                Some(p) => assert!(p.last_stream_id() == id && u32::from(p.reason()) == reason, "pending GOAWAY is not the latest request"),
+                None => panic!("GOAWAY request not queued"),
+            }
+        }
+        assert!(g.is_user_initiated() == user);
+        assert!(g.should_close_now() == (g.pending.is_none() && close_now));
+        assert!(g.should_close_on_idle() == (!close_now && id != StreamId::MAX));
+        last = Some((id, reason.into()));
+        i += 1;
+    }
+    kani::cover!(close_now && g.pending.is_none(), "close_now_reached");
+    kani::cover!(true, "end");
+    std::mem::forget(g);
+}
+
+/// C15 / C18: the pending GOAWAY is written exactly once, with the requested
+/// last-stream-id and reason, and is kept (not dropped, not duplicated) under back-pressure.
+pub fn c15_send_pending_go_away_blocked() { send_pending_go_away(true) }
+pub fn c15_send_pending_go_away_room() { send_pending_go_away(false) }
+fn send_pending_go_away(blocked: bool) {
+    use crate::codec::verif_h::{codec_buffered, codec_set_blocked, mk_codec, Mock, EXP};
+    use crate::proto::verif_h::SymBuf;
+    let mut g = GoAway::new();
+    let id = any_id();
+    let reason: u32 = kani::any();
+    let now: bool = kani::any();
+    if now {
+        g.go_away_now(frame::GoAway::new(id, reason.into()));
+    } else {
+        g.go_away(frame::GoAway::new(id, reason.into()));
+    }
+    let mut codec = mk_codec::<SymBuf>(Mock::new([0; EXP], 0, 0));
+    codec_set_blocked(&mut codec, blocked);
+    let waker = std::task::Waker::noop();
+    let mut cx = Context::from_waker(&waker);
+    let r = g.send_pending_go_away(&mut cx, &mut codec);
+    if blocked {
+        assert!(r.is_pending() && g.pending.is_some(), "owed GOAWAY lost under back-pressure");
+        assert!(codec_buffered(&codec).is_empty());
+        assert!(!g.should_close_now(), "connection would close before its GOAWAY was written");
+    } else {
+        match &r {
+            Poll::Ready(Some(Ok(rs))) => assert!(u32::from(*rs) == reason),
+            _ => panic!("GOAWAY not reported as sent"),
+        }
+        let b = codec_buffered(&codec);
+        assert!(b.len() == 17 && b[2] == 8 && b[3] == 7 && b[4] == 0 && b[5] == 0 && b[6] == 0 && b[7] == 0 && b[8] == 0, "one GOAWAY frame on stream 0");
+        let last = ((b[9] as u32) << 24) | ((b[10] as u32) << 16) | ((b[11] as u32) << 8) | (b[12] as u32);
+        let code = ((b[13] as u32) << 24) | ((b[14] as u32) << 16) | ((b[15] as u32) << 8) | (b[16] as u32);
+        assert!(last == u32::from(id) && code == reason, "GOAWAY on the wire differs from the request");
+        assert!(g.pending.is_none());
+        assert!(g.should_close_now() == now);
+        // (a second call finds `pending == None`: it cannot write a second GOAWAY)
+    }
+    kani::cover!(now, "now");
+    kani::cover!(true, "end");
+    std::mem::forget(r);
+    std::mem::forget(codec);
+    std::mem::forget(g);
+}
